@@ -65,6 +65,17 @@ type L1 struct {
 	Chan      *ChanKeeper
 	Authority string
 	Minter    string
+	// Send is shared by shallow copies of the environment: code that runs inside every bank transfer
+	// (the bank keeper's send restriction, the SDK's extension point for token hooks).
+	Send *SendHook
+}
+
+// SendHook lets a test run code while a bank transfer is executing, as a token hook or a
+// contract on the receiving side would. Current is the message being delivered.
+type SendHook struct {
+	Fn      func(ctx sdk.Context, from, to sdk.AccAddress, amt sdk.Coins)
+	Current sdk.Msg
+	active  bool
 }
 
 // PermKeeper is a store-backed stand-in for the ibcperm keeper: a failed message rolls it
@@ -177,6 +188,16 @@ func NewL1(opt L1Options) *L1 {
 		panic(err)
 	}
 
+	sendHook := &SendHook{}
+	bk.AppendSendRestriction(func(c context.Context, from, to sdk.AccAddress, amt sdk.Coins) (sdk.AccAddress, error) {
+		if sendHook.Fn != nil && !sendHook.active {
+			sendHook.active = true // the hook's own transfers do not recurse into the hook
+			defer func() { sendHook.active = false }()
+			sendHook.Fn(sdk.UnwrapSDKContext(c), from, to, amt)
+		}
+		return to, nil
+	})
+
 	router := baseapp.NewMsgServiceRouter()
 	router.SetInterfaceRegistry(enc.InterfaceRegistry)
 	banktypes.RegisterMsgServer(router, bankkeeper.NewMsgServerImpl(bk))
@@ -195,7 +216,7 @@ func NewL1(opt L1Options) *L1 {
 
 	return &L1{
 		Ctx: ctx, Keys: keys, Enc: enc, AK: ak, BK: bk, K: k, Q: ophostkeeper.NewQuerier(*k),
-		Router: router, Perm: perm, Chan: ch, Authority: authority, Minter: authtypes.Minter,
+		Router: router, Perm: perm, Chan: ch, Authority: authority, Minter: authtypes.Minter, Send: sendHook,
 	}
 }
 
@@ -212,7 +233,32 @@ func (e *L1) Fund(addr sdk.AccAddress, coins ...sdk.Coin) {
 }
 
 // Deliver runs one message as one transaction.
-func (e *L1) Deliver(msg sdk.Msg) Result { return deliver(e.Ctx, e.Router, msg) }
+func (e *L1) Deliver(msg sdk.Msg) Result {
+	prev := e.Send.Current
+	e.Send.Current = msg
+	defer func() { e.Send.Current = prev }()
+	return deliver(e.Ctx, e.Router, msg)
+}
+
+// Nested runs msg from inside a running message (on ctx, the context the running message
+// sees), the way a sub-message of a contract does: on a branch that is written on success.
+func (e *L1) Nested(ctx sdk.Context, msg sdk.Msg) (err error) {
+	defer func() {
+		if r := recover(); r != nil {
+			err = fmt.Errorf("panic: %v", r)
+		}
+	}()
+	h := e.Router.Handler(msg)
+	if h == nil {
+		return fmt.Errorf("unroutable message")
+	}
+	cc, write := ctx.CacheContext()
+	if _, err = h(cc, msg); err != nil {
+		return err
+	}
+	write()
+	return nil
+}
 
 // Advance moves to a later block: height+1, time+d.
 func (e *L1) Advance(d time.Duration) {
